@@ -90,6 +90,8 @@ def expr(v):
         return f"outsource({expr(v[1])}{sfx})"
     if t == "badcopy":
         return f"BadCopy({v[1]})"
+    if t == "badlist":
+        return f"BadList([{v[1]}, {v[1] + 1}])"
     if t == "raiseseq":
         return f"RaisesEq({v[1]})"
     if t == "evileq":
@@ -300,7 +302,12 @@ def gen_set_elems(rng, prof, depth):
     if r < 0.45:
         # tuples that carry a frozenset of strings, next to an element that makes the set unorderable
         return _uniq([["none"]] + [["tuple", [["str", rng.choice("xyz")], ["frozenset", _uniq([["str", rng.choice("klmnop")] for _ in range(rng.randint(2, 3))])]]] for _ in range(rng.randint(2, 3))])
-    if r < 0.6:
+    if r < 0.55:
+        # elements that are only partially ordered although they are not sets themselves: tuples whose FIRST member is a frozenset of
+        # strings (items() of a mapping with frozenset keys); `<` answers False in both directions, sorted() does not raise
+        return _uniq([["tuple", [["frozenset", _uniq([["str", rng.choice("abcdefgh") * rng.randint(1, 2)] for _ in range(rng.randint(1, 3))])], ["int", rng.randint(0, 5)]]]
+                      for _ in range(rng.randint(2, 4))])
+    if r < 0.65:
         return _uniq([["none"], ["str", gen_str(rng, prof, long_ok=False)], ["int", rng.randint(0, 9)], ["bytes", "ab"], ["enum", rng.choice(ENUMS)], ["tuple", [["int", 1]]]][: max(2, n)])
     return _uniq([gen_hashable(rng, prof, depth) for _ in range(n)])
 
